@@ -1685,7 +1685,7 @@ def p_optimize(w, rnd):
         a = rnd.choice(st)
         mx = int(min(max(w.h[a].obj.bond_dims_exact[1:] + [1]), 64))
         m = mx if rnd.random() < 0.6 else rnd.randint(1, max(1, min(mx, 6)))
-        nsw = rnd.randint(2, 5)
+        nsw = rnd.randint(2, 4)
         proc = [[m, rnd.choice([0.4, 0.2, 0.0])] for _ in range(nsw - 2)] + [[m, 0.0], [m, 0.0]]
         return {"op": "optimize", "a": a, "h": hh, "algo": rnd.choice(["davidson", "davidson", "arpack", "direct"]), "procedure": proc, "out": w.new_handle()}
     return None
